@@ -90,6 +90,16 @@ var orderNames = []string{"ascending", "descending", "zigzag-outside-in", "middl
 
 func (d *kvDriver[K]) probe() {
 	r := d.c.R
+	if d.m.Nav && d.m.A.Sorted && r.Intn(3) == 0 {
+		// navigation reads as part of the history (memoised extremes and
+		// floor/ceiling hints are wrong right after the call that should have
+		// invalidated them, and repaired by the next unrelated read)
+		d.m.NavOp()
+		return
+	}
+	if d.m.GetKey() && r.Intn(3) == 0 {
+		return
+	}
 	if n := d.m.n(); n > 0 && r.Bool() {
 		d.m.Get(d.m.Mod.Ents[r.Intn(n)].Key)
 	} else {
@@ -231,7 +241,11 @@ func (d *kvDriver[K]) neighbourhood(n, bursts int) {
 			k := focus[r.Intn(len(focus))]
 			switch r.Pick(40, 25, 35) {
 			case 0:
-				d.m.Get(k)
+				if d.m.Nav && r.Bool() {
+					d.m.NavOp()
+				} else {
+					d.m.Get(k)
+				}
 			case 1:
 				d.m.Remove(k)
 			default:
